@@ -49,6 +49,9 @@ func (w *world) mintWith0(o tokOpts, rng *mrand.Rand) *hTok {
 			c["iss"] = issDevs[o.claimDev-1]
 		case o.claimDev > len(issDevs):
 			c["aud"] = []interface{}{"someone-else", "cid2"}
+			if w.nTok%2 == 0 { // ... issued to this client as the authorized party, for another audience
+				c["azp"] = "cid"
+			}
 		}
 		if o.email != nil {
 			c["email"] = o.email
@@ -70,6 +73,18 @@ func (w *world) mintWith0(o tokOpts, rng *mrand.Rand) *hTok {
 		}
 		for k, v := range o.extra {
 			c[k] = v
+		}
+		// claims that decide nothing: optional registered ones (azp, acr, amr, auth_time, sid, at_hash) and private ones whose names
+		// differ from registered names only in case, written after them with other values - a year ahead, another client, another issuer
+		far := time.Now().Add(365 * 24 * time.Hour).Unix()
+		switch w.nTok % 4 {
+		case 1:
+			c["azp"], c["acr"], c["amr"], c["auth_time"] = "cid", "urn:mace:incommon:iap:silver", []string{"pwd", "otp"}, time.Now().Unix()-30
+		case 2:
+			c["__tail"] = [][2]interface{}{{"Exp", far}, {"Iat", far}, {"Nbf", 0}, {"Aud", "cid"}, {"Iss", issuerURL}, {"Sub", "root"}, {"Email", "root@example.com"}}
+		case 3:
+			c["azp"], c["sid"], c["at_hash"] = "cid", "sid-1", "MTIzNDU2Nzg5MDEyMzQ1Ng"
+			c["__tail"] = [][2]interface{}{{"EXP", far}, {"eXp", far}, {"AUD", []string{"cid"}}, {"ISS", issuerURL}, {"Groups", []string{"admin"}}, {"Roles", []string{"admin"}}}
 		}
 	}, o.expIn, o.valid, o.blob, rng)
 }
@@ -277,6 +292,13 @@ func (w *world) fullLogin(rawURI string, o tokOpts, rt string, rng *mrand.Rand) 
 func (w *world) logoutStep(rs reqSpec) M {
 	before := w.viewOf(w.jars[w.b])
 	rs.rawURI = w.logout
+	if T.prop == "C11" && w.step%3 == 1 && len(w.jars[w.b]) > 0 {
+		// the browser does not attach its cookies to the logout request (they are Secure and the request is plain http; or SameSite
+		// and the request cross-site) but takes over the answer: the session still ends
+		rs.withhold = true
+		before = w.viewOf(jar{})
+		T.stat("handler.logout.cookies-withheld")
+	}
 	obs := w.do(rs)
 	if obs == nil {
 		return nil
@@ -435,6 +457,9 @@ func (w *world) randomRefreshAnswer(rng *mrand.Rand) *tokenAnswer {
 	default:
 		o := w.randomTokOpts(rng, true)
 		o.extra = M{"aud": "someone-else"}
+		if rng.Intn(2) == 0 {
+			o.extra["azp"] = "cid"
+		}
 		o.valid = true
 		t := w.mintWith(o, rng)
 		t.valid = false // foreign audience: the reference verifier rejects
@@ -457,6 +482,9 @@ func (w *world) judgeRefresh(rs reqSpec, obs M, calls []string, old *hTok, rng *
 		T.oracle("C08", "refresh-due request did not trigger exactly one refresh grant", M{"calls": calls, "note": rs.note}, w.replay())
 	}
 	a := rs.refresh
+	if w.actualRefresh != nil { // (what the provider actually answered: it refuses refresh tokens it has not issued)
+		a = w.actualRefresh
+	}
 	now := time.Now().Unix()
 	var nt *hTok
 	if a != nil && a.kind == "ok" {
